@@ -62,19 +62,21 @@ CLAIMS = {
         note=BASE_NOTE + " Field constraints / constructor arguments (C13/C11 positions) are covered by those properties' checks."),
 
     'C05': dict(
-        text=("PARTIAL. Proved (unbounded histories of lookups): an operator answering covered lookups from a memo returns exactly the "
-              "uncached results provided stored entries are the uncached results of their lookups (C05_memo_transparent_partial); and "
-              "C05_indexed_full_rows: the call-site shape the five cache sites of symbolic.py share (coverage check -> replay what retrieval "
-              "returns; otherwise evaluate, yield, store every row) on top of the CONCRETE index (the line-by-line model of "
-              "cache_data.IndexedCache / SeenSet, tied to the code by C20's operation-level correspondence) returns, over any history of "
-              "lookups binding at least one key, exactly the uncached rows with their flags - for every operator whose rows bind every "
-              "cache key (no wildcard ever enters the index: C20_retrieve_sound + C20_retrieve_complete + C20_check do the work). "
-              "NOT proved: operators whose rows leave a cache key open (the index itself is exact there too - C20_retrieve, after the repair "
-              "of the former known findings - but the operator then keeps the most general of the retrieved rows), and that each call site of "
-              "symbolic.py has the modelled shape / which yield_when_false a row was stored under - covered by the correspondence check: every "
+        text=("PARTIAL. Proved, each for unbounded histories of lookups: (1) C05_memo_transparent_partial - an operator answering covered lookups "
+              "from a memo returns exactly the uncached results provided stored entries are the uncached results of their lookups; (2) the "
+              "CONCRETE index (the line-by-line model of cache_data.IndexedCache / SeenSet, tied to the code by C20's operation-level "
+              "correspondence) is exact - C20_check, C20_retrieve; (3) the call-site shape the five cache sites of symbolic.py share "
+              "(coverage check -> replay the most general of the rows retrieval returns; otherwise evaluate, yield, store every row) on top "
+              "of that index: C05_indexed_denotation - for EVERY operator, rows that leave cache keys open included (the wildcard region in "
+              "which the pinned commit lost rows), the cached answers stand for exactly the assignments the uncached answers stand for "
+              "(transparency as a set of assignments; the operator is given by the relation it denotes and rows that may leave keys open); "
+              "C05_indexed_full_rows - for operators whose rows bind every cache key the cached rows ARE the uncached rows with their flags. "
+              "NOT proved: that no assignment is yielded twice when rows leave keys open, that each call site of symbolic.py has the "
+              "modelled shape (the translator pins the replay and the flag discipline), and which yield_when_false a row was stored under - "
+              "covered by the correspondence check: every "
               "generated query (all shapes) is run twice with caching disabled and twice enabled on fresh objects and the four row "
               "multisets are compared with each other and with the specification, with cache-hit counts in the evidence."),
-        design='7/C05', technique='Coq proof for the abstract memo and for the concrete index under full-row operators (invariant over lookup histories; soundness / completeness / coverage theorems of the index model) + differential correspondence cache on/off',
+        design='7/C05', technique='Coq proof: abstract memo; concrete index model (exact retrieval, coverage); cached call site over the index by invariants over lookup histories (denotational transparency for every operator, row-exact for full-row operators) + translator-pinned replay / flag discipline + differential correspondence cache on/off',
         note=BASE_NOTE + " The cached path of the implementation (in-place mutation and aliasing of binding dictionaries) is abstracted. The former known finding C05-wildcard-retrieval (rows lost through a mixed wildcard / concrete level of the index) was repaired in /repo: no finding is open for this property."),
     'C06': dict(
         text=("Machine-checked: C06_none / C06_value / C06_many decide the outcome of `the` by the number of satisfying assignments (0, 1, >= 2) "
